@@ -13,10 +13,19 @@ import (
 func (g *gen) doInstr(ci *cfgInfo, in ssa.Instruction) {
 	switch x := in.(type) {
 	case *ssa.DebugRef:
-		if !x.IsAddr {
-			if id, ok := x.Expr.(interface{ String() string }); ok {
-				_ = id
+		if x.IsAddr && x.Object() != nil {
+			// a variable that lives in memory: remember its address; specs read it through the heap
+			m := g.debugVars[g.curBlock]
+			if m == nil {
+				m = map[string]T{}
+				g.debugVars[g.curBlock] = m
 			}
+			t := g.operand(x.X)
+			t.AddrOf = true
+			t.GoT = x.X.Type()
+			m[x.Object().Name()] = t
+		}
+		if !x.IsAddr {
 			if x.Object() != nil {
 				m := g.debugVars[g.curBlock]
 				if m == nil {
@@ -29,6 +38,9 @@ func (g *gen) doInstr(ci *cfgInfo, in ssa.Instruction) {
 	case *ssa.Alloc:
 		addr := g.allocAddrNew()
 		g.allocAddr[x] = addr
+		g.noteAddr(addr, x)
+		g.declare("atag", "(declare-fun atag (Int) Int)")
+		g.assume(sx("=", sx("atag", addr), "0"))
 		g.vals[x] = T{S: addr, Sort: sPtr, GoT: x.Type()}
 		et := x.Type().Underlying().(*types.Pointer).Elem()
 		g.storeAt(addr, et, g.zero(et).S)
@@ -70,15 +82,16 @@ func (g *gen) doInstr(ci *cfgInfo, in ssa.Instruction) {
 			g.assume(not(sx("=", r.S, "errnil")))
 		case sIface:
 			fn := "box." + sortID(v.Sort)
-			g.declare(fn, fmt.Sprintf("(declare-fun %s (%s) Iface)", fn, v.Sort))
+			g.declare(fn, fmt.Sprintf("(declare-fun %s (%s) Iface)\n(declare-fun un%s (Iface) %s)", fn, v.Sort, fn, v.Sort))
+			g.declare("itag", "(declare-fun itag (Iface) Int)")
 			r := g.setVal(x, sx(fn, v.S))
-			g.assume(not(sx("=", r.S, "ifnil")))
+			// boxed values are non-nil, remember their dynamic type and content
+			g.assume(and(not(sx("=", r.S, "ifnil")), sx("=", sx("itag", r.S), fmt.Sprint(g.w.typeID(x.X.Type()))), sx("=", sx("un"+fn, r.S), v.S)))
 		default:
 			g.freshVal(x)
 		}
 	case *ssa.TypeAssert:
-		g.unmodelled("type assertion", x.Pos())
-		g.freshVal(x)
+		g.doTypeAssert(x)
 	case *ssa.Extract:
 		tup := g.tuples[x.Tuple]
 		if tup == nil || x.Index >= len(tup) {
@@ -241,7 +254,10 @@ func (g *gen) doUnOp(x *ssa.UnOp) {
 				return
 			}
 		}
-		g.setVal(x, g.load(x.X, x.Type()))
+		lv := g.setVal(x, g.load(x.X, x.Type()))
+		if lv.Sort == sPtr {
+			g.assume(and(sx("<=", "0", lv.S), sx("<", lv.S, g.nalloc())))
+		}
 	case token.NOT:
 		g.setVal(x, not(g.operand(x.X).S))
 	case token.SUB:
@@ -455,12 +471,18 @@ func (g *gen) binop(op token.Token, a, b T) (string, bool) {
 			return not(sx("gstr.lt", a.S, b.S)), true
 		}
 	case s == sSlice:
-		// comparison with nil only
+		// Go only compares slices with nil (a nil slice has region 0); specifications may compare
+		// two slice values, which means identical region, offset and length
+		nilS := g.zeroOfSort(sSlice, nil)
+		eq := sx("=", a.S, b.S)
+		if a.S == nilS || b.S == nilS {
+			eq = sx("=", sx("s.reg", a.S), sx("s.reg", b.S))
+		}
 		switch op {
 		case token.EQL:
-			return sx("=", sx("s.reg", a.S), sx("s.reg", b.S)), true
+			return eq, true
 		case token.NEQ:
-			return not(sx("=", sx("s.reg", a.S), sx("s.reg", b.S))), true
+			return not(eq), true
 		}
 	default:
 		if a.Sort == b.Sort {
@@ -808,9 +830,11 @@ func (g *gen) doCall(x *ssa.Call) {
 		return
 	}
 	full, short := g.calleeName(c)
-	g.callOrd[short]++
-	g.callOrd[full]++
-	ord := g.callOrd[full]
+	ord := g.srcOrd[x]
+	if ord == 0 {
+		g.callOrd[full]++
+		ord = 1000 + g.callOrd[full]
+	}
 	if g.doIntrinsic(x, full) {
 		return
 	}
@@ -964,6 +988,10 @@ func (g *gen) applyCall(val ssa.Value, c *ssa.CallCommon, full, short string, or
 			g.assume(implies(g.curReach, sx(">=", sx("s.reg", res[0].S), pre["nalloc"])))
 		}
 	}
+	if g.callResults == nil {
+		g.callResults = map[string][]T{}
+	}
+	g.callResults[fmt.Sprintf("%s#%d", short, ord)] = res
 	g.anchoredAsserts(full, short, ord, true, res, pos)
 }
 
@@ -1218,4 +1246,47 @@ func (g *gen) definitelyNonNilErr(v ssa.Value) bool {
 		}
 	}
 	return false
+}
+
+// doTypeAssert: interface values carry a dynamic type tag (itag) and their boxed content.
+func (g *gen) doTypeAssert(x *ssa.TypeAssert) {
+	v := g.operand(x.X)
+	if v.Sort != sIface {
+		g.unmodelled("type assertion on "+v.Sort, x.Pos())
+		g.freshVal(x)
+		return
+	}
+	ts, tsg := g.sortOf(x.AssertedType)
+	g.declare("itag", "(declare-fun itag (Iface) Int)")
+	var ok, val string
+	if _, isIface := x.AssertedType.Underlying().(*types.Interface); isIface {
+		// to another interface type: succeeds or not (method sets are not modelled); the value is kept
+		okc := g.declConst("taok", sBool)
+		g.assume(implies(okc, not(sx("=", v.S, "ifnil"))))
+		ok = okc
+		if ts == sIface {
+			val = v.S
+		} else {
+			val = g.freshOfType(x.AssertedType, "ta").S
+		}
+	} else {
+		g.ensureSort(ts)
+		fn := "box." + sortID(ts)
+		g.declare(fn, fmt.Sprintf("(declare-fun %s (%s) Iface)\n(declare-fun un%s (Iface) %s)", fn, ts, fn, ts))
+		ok = g.define("taok", sBool, and(not(sx("=", v.S, "ifnil")), sx("=", sx("itag", v.S), fmt.Sprint(g.w.typeID(x.AssertedType)))))
+		val = sx("un"+fn, v.S)
+	}
+	if ts == sPtr {
+		g.assume(implies(ok, and(sx("<=", "0", val), sx("<", val, g.nalloc()))))
+	}
+	if x.CommaOk {
+		vt := T{S: g.define("ta", ts, sx("ite", ok, val, g.zeroOfSort(ts, x.AssertedType))), Sort: ts, Signed: tsg, GoT: x.AssertedType}
+		g.tuples[x] = []T{vt, {S: ok, Sort: sBool}}
+		g.vals[x] = T{S: "TUPLE", Sort: "TUPLE"}
+		return
+	}
+	if g.unit.NoPanic {
+		g.oblige("nopanic", g.npName("typeassert"), "type assertion succeeds", ok, x.Pos())
+	}
+	g.vals[x] = T{S: g.define("ta", ts, val), Sort: ts, Signed: tsg, GoT: x.AssertedType}
 }
